@@ -73,14 +73,23 @@ def vals(o, n):
             out.append(np.array([np.nan]) if v is None else np.atleast_1d(np.asarray(v, dtype=float)))
     return out
 
-def same_vals(a, b, rtol):
+def noise_floor(p):
+    """scale below which a derived quantity is pure cancellation noise: chi / spinodal / B2 of (nearly) identical species are differences of
+    O(max|stored arrays|) terms; 1e-6 of that scale, with rtol 1e-7, is an absolute tolerance of 1e-13 x scale"""
+    m = 1.0
+    for arr in (p.omega, p.totalCorr, p.directCorr):
+        d = np.asarray(arr.data, dtype=float); f = d[np.isfinite(d)]
+        if f.size: m = max(m, float(np.max(np.abs(f))))
+    return 1e-6 * m
+
+def same_vals(a, b, rtol, floor=0.0):
     if len(a) != len(b): return False, 'shape'
     for x, y in zip(a, b):
         if x.shape != y.shape: return False, 'shape'
         both = np.isfinite(x) & np.isfinite(y)
         if np.any(np.isfinite(x) != np.isfinite(y)): return False, 'nan/None pattern'
         if np.any(both):
-            sc = max(float(np.max(np.abs(x[both]))), float(np.max(np.abs(y[both]))), 1e-300)
+            sc = max(float(np.max(np.abs(x[both]))), float(np.max(np.abs(y[both]))), 1e-300, floor)
             e = float(np.max(np.abs(x[both] - y[both])))
             if e > rtol * sc: return False, 'max diff %.3g on scale %.3g' % (e, sc)
     return True, ''
@@ -201,6 +210,7 @@ def run_ops(ctx, case, p, pristine, can0, scale0, n):
                 impl = 'ok %s | %s' % (out_tok(out, n), G.state_tok(p))
             il = impl.replace(' nan', ' 7ff8000000000000')
             atols = G.group_atols(il.replace('7ff8000000000000', '0000000000000000'), 1e-7)
+            atols = [max(t_, 1e-7 * noise_floor(pristine)) for t_ in atols]          # differences of O(scale) terms that cancel (chi of identical species) are rounding noise
             if op in ('pmf', 'solvP'):
                 # -kT log(.) is ill-conditioned where its argument is ~0 (inside cores) or negative: compared only where the argument is resolved
                 arg = np.exp(-out.data.reshape(-1) / p.sys.kT)
@@ -223,7 +233,7 @@ def run_ops(ctx, case, p, pristine, can0, scale0, n):
                     a = [a[0][mask]]; b = [b[0][mask]]
                 if op == 'solvP':
                     fin = np.isfinite(a[0]) & np.isfinite(b[0]); a = [a[0][fin]]; b = [b[0][fin]]
-                ok, why = same_vals(a, b, 1e-7)
+                ok, why = same_vals(a, b, 1e-7, noise_floor(pristine))
                 ctx.pred('ops', sub, ok, '%s after history %s differs from the same call on a fresh identically solved object: %s' % (op, case['ops'][:step], why),
                          key='C06:history:' + op.rstrip('01HP'))
         # the stored arrays still describe the same solved object
